@@ -739,7 +739,7 @@ class Block(object):
     def sanity_check_net(self, net):
         """ Check that net is a valid LogicNet. """
         from .wire import Input, Output, Const, Register
-        from .memory import MemBlock
+        from .memory import MemBlock, RomBlock
 
         # general sanity checks that apply to all operations
         if not isinstance(net, LogicNet):
@@ -848,6 +848,10 @@ class Block(object):
             raise PyrtlInternalError('error, upper bits of select output undefined')
         if net.op == 'm' and net.dests[0].bitwidth != net.op_param[1].bitwidth:
             raise PyrtlInternalError('error, mem read dest bitwidth mismatch')
+        if net.op in 'm@' and net.op_param[0] != net.op_param[1].id:
+            raise PyrtlInternalError('error, mem op memid does not match its memory')
+        if net.op == '@' and isinstance(net.op_param[1], RomBlock):
+            raise PyrtlInternalError('error, a RomBlock cannot have a write port')
 
 
 class PostSynthBlock(Block):
